@@ -215,6 +215,7 @@ NOTES = (
     "(symbolic write addresses outside DRAM in the thorough tier; symbolic DRAM write addresses bit-blast the 2 MiB array); C14 write() lengths <= 4 (8 in thorough); "
     "C15 does not cover control-channel lines. "
     "Quick tiers stay below 900 s each; C20's quick tier holds 140 of its 254 form harnesses (all in thorough). "
-    "44 independently seeded changes (seeded/, DESIGN.md section 6) were evaluated: 41 caught, 3 missed for stated reasons (C13c sync clause, C14b length > 256, C18a outgoing escaping); "
+    "58 independently seeded changes (seeded/, DESIGN.md section 6) were evaluated in six waves: 55 caught (about a dozen of them only after a miss or an inconclusive first run was analysed and "
+    "the machinery strengthened - each recorded in the seed's `history`), 3 missed for stated reasons (C13c sync clause, C14b length > 256, C18a outgoing escaping); "
     "the revert of each fix: commit is caught (seeded/REVERTED_FIXES.md)."
 )
